@@ -125,6 +125,9 @@ def _pipeline(m, rot, li, fw, sites8, labels, cubic, dict_radius=False, site_sca
         if 'No jumps found' not in str(e):
             raise
         out['jumps'] = []
+    # per-state radial distributions: keyed by state names built from the site labels, so they may not depend on the order of sites or atoms
+    srd = tr.radial_distribution(floating_specie='Li', max_dist=4.0, resolution=0.5)
+    out['srdf'] = sorted([str(state), str(rr.label), [int(v) for v in rr.y]] for state, coll in srd.items() for rr in coll)
     r = radial_distribution_between_species(trajectory=traj, specie_1='Li', specie_2='S', max_dist=4.0, resolution=0.5)
     out['rdf'] = [float(v) for v in r.y]
     mt = traj.filter('Li').metrics()
@@ -207,6 +210,20 @@ def _relabel_sites(rows, inv, cols):
     return sorted(tuple(inv[v] if (i in cols and v >= 0) else v for i, v in enumerate(r)) for r in rows)
 
 
+def _rdf_edge_guard(case):
+    """True when some Li - atom distance lies within 1e-6 of a shell edge (k x 0.5 A): the bin decision is then not robust against the
+    last-bit changes of rotated / translated copies"""
+    G = synth.gram(case['m'])
+    for li_fr, fw_fr in zip(case['li'], case['fw']):
+        allp = li_fr + fw_fr
+        for p in li_fr:
+            for q in allp:
+                d = math.sqrt(float(synth.min_image_d2(G, [Fr(p[k] - q[k], DEN) for k in range(3)], 2)))
+                if d < 4.5 and abs(d / 0.5 - round(d / 0.5)) < 2e-6 and d > 1e-9:
+                    return True
+    return False
+
+
 def _guard(case):
     """True when some Li atom-frame lies within the guard band of a site sphere (decision not robust in float32)"""
     G = synth.gram(case['m'])
@@ -270,6 +287,8 @@ def oracle(case, out):
             cmp(kind, 'jump_diffusivity', b['jdiff'], o.get('jdiff'), 1e-9)
             cmp(kind, 'collective', [b['solo'], b['ncoll']], [o.get('solo'), o.get('ncoll')])
         cmp(kind, 'rdf', b['rdf'], o.get('rdf'), 1e-9)
+        if not _rdf_edge_guard(case):
+            cmp(kind, 'state_rdf', b.get('srdf'), o.get('srdf'))
         cmp(kind, 'metrics', b['metrics'], o.get('metrics'), 1e-9)
         if 'vol' in b and (case['cubic'] or kind != 'trans'):
             v = np.array(b['vol'])
